@@ -1,0 +1,380 @@
+//go:build verif
+
+// Contracts for package csproto, checked by /verif/gocv.  Comment-only: with the verif
+// build tag off this file is not compiled, with it on it adds nothing to the binary.
+// Spec functions (vlen, vbyte, varintLen, ..., keyOf, zz64, le32, ...) are defined in
+// /verif/spec and overlaid on the package when the verifier loads it.
+
+package csproto
+
+// ---------------------------------------------------------------------------------------
+// encoder.go: free functions
+
+//@ func EncodeVarint(dest []byte, v uint64) (n int)
+//@   requires len(dest) >= vlen(v)
+//@   ensures  n == vlen(v)
+//@   ensures  isVarintOf(dest, 0, v)
+//@   modifies dest[0:vlen(v)]
+//@   loop 1: unroll 10
+
+//@ func EncodeTag(dest []byte, tag int, wireType WireType) (n int)
+//@   requires len(dest) >= keyLen(tag, wireType)
+//@   ensures  n == keyLen(tag, wireType)
+//@   ensures  hasKey(dest, 0, tag, wireType)
+//@   modifies dest[0:keyLen(tag, wireType)]
+
+//@ func EncodeFixed32(dest []byte, v uint32) (n int)
+//@   requires len(dest) >= 4
+//@   ensures  n == 4 && le32(dest, 0) == v
+//@   modifies dest[0:4]
+
+//@ func EncodeFixed64(dest []byte, v uint64) (n int)
+//@   requires len(dest) >= 8
+//@   ensures  n == 8 && le64(dest, 0) == v
+//@   modifies dest[0:8]
+
+//@ func EncodeZigZag32(dest []byte, v int32) (n int)
+//@   requires len(dest) >= vlen(zz32(v))
+//@   ensures  n == vlen(zz32(v))
+//@   ensures  isVarintOf(dest, 0, zz32(v))
+//@   modifies dest[0:vlen(zz32(v))]
+
+//@ func EncodeZigZag64(dest []byte, v int64) (n int)
+//@   requires len(dest) >= vlen(zz64(v))
+//@   ensures  n == vlen(zz64(v))
+//@   ensures  isVarintOf(dest, 0, zz64(v))
+//@   modifies dest[0:vlen(zz64(v))]
+
+// ---------------------------------------------------------------------------------------
+// sizeof.go
+
+//@ func SizeOfVarint(v uint64) (n int)
+//@   ensures n == vlen(v)
+
+//@ func SizeOfTagKey(k int) (n int)
+//@   ensures forall(w, 0, 8, n == vlen(keyOf(k, w)))
+
+//@ func SizeOfZigZag(v uint64) (n int)
+//@   ensures n == vlen(zz64(int64(v)))
+//@   ensures implies(int64(v) == int64(int32(v)), n == vlen(zz32(int32(v))))
+
+// ---------------------------------------------------------------------------------------
+// encoder.go: Encoder methods.  Writers require exactly the room the size helpers predict
+// (weakest precondition), advance the cursor by exactly that much and leave the canonical
+// encoding of (key, payload) behind.
+
+//@ func NewEncoder(p []byte) (e *Encoder)
+//@   inline
+//@   ensures e != nil && gocv_fresh(e) && e.offset == 0 && gocv_view(e.p, p, 0, len(p)) && cap(e.p) == cap(p)
+
+//@ func (e *Encoder) stringToBytes(s string) (b []byte)
+//@   trusted
+//@   ensures gocv_strview(b, s)
+
+//@ func (e *Encoder) EncodeBool(tag int, v bool)
+//@   requires room(e, keyLen(tag, WireTypeVarint)+1)
+//@   ensures  e.offset == old(e.offset)+keyLen(tag, WireTypeVarint)+1
+//@   ensures  hasKey(e.p, old(e.offset), tag, WireTypeVarint)
+//@   ensures  byteAt(e.p, old(e.offset)+keyLen(tag, WireTypeVarint)) == boolByte(v)
+//@   modifies e.offset, e.p[e.offset : e.offset+keyLen(tag, WireTypeVarint)+1]
+
+//@ func (e *Encoder) EncodeUInt32(tag int, v uint32)
+//@   requires room(e, keyLen(tag, WireTypeVarint)+vlen(uint64(v)))
+//@   ensures  e.offset == old(e.offset)+keyLen(tag, WireTypeVarint)+vlen(uint64(v))
+//@   ensures  hasKey(e.p, old(e.offset), tag, WireTypeVarint)
+//@   ensures  isVarintOf(e.p, old(e.offset)+keyLen(tag, WireTypeVarint), uint64(v))
+//@   modifies e.offset, e.p[e.offset : e.offset+keyLen(tag, WireTypeVarint)+vlen(uint64(v))]
+
+//@ func (e *Encoder) EncodeUInt64(tag int, v uint64)
+//@   requires room(e, keyLen(tag, WireTypeVarint)+vlen(v))
+//@   ensures  e.offset == old(e.offset)+keyLen(tag, WireTypeVarint)+vlen(v)
+//@   ensures  hasKey(e.p, old(e.offset), tag, WireTypeVarint)
+//@   ensures  isVarintOf(e.p, old(e.offset)+keyLen(tag, WireTypeVarint), v)
+//@   modifies e.offset, e.p[e.offset : e.offset+keyLen(tag, WireTypeVarint)+vlen(v)]
+
+//@ func (e *Encoder) EncodeInt32(tag int, v int32)
+//@   requires room(e, keyLen(tag, WireTypeVarint)+vlen(uint64(int64(v))))
+//@   ensures  e.offset == old(e.offset)+keyLen(tag, WireTypeVarint)+vlen(uint64(int64(v)))
+//@   ensures  hasKey(e.p, old(e.offset), tag, WireTypeVarint)
+//@   ensures  isVarintOf(e.p, old(e.offset)+keyLen(tag, WireTypeVarint), uint64(int64(v)))
+//@   modifies e.offset, e.p[e.offset : e.offset+keyLen(tag, WireTypeVarint)+vlen(uint64(int64(v)))]
+
+//@ func (e *Encoder) EncodeInt64(tag int, v int64)
+//@   requires room(e, keyLen(tag, WireTypeVarint)+vlen(uint64(v)))
+//@   ensures  e.offset == old(e.offset)+keyLen(tag, WireTypeVarint)+vlen(uint64(v))
+//@   ensures  hasKey(e.p, old(e.offset), tag, WireTypeVarint)
+//@   ensures  isVarintOf(e.p, old(e.offset)+keyLen(tag, WireTypeVarint), uint64(v))
+//@   modifies e.offset, e.p[e.offset : e.offset+keyLen(tag, WireTypeVarint)+vlen(uint64(v))]
+
+//@ func (e *Encoder) EncodeSInt32(tag int, v int32)
+//@   requires room(e, keyLen(tag, WireTypeVarint)+vlen(zz32(v)))
+//@   ensures  e.offset == old(e.offset)+keyLen(tag, WireTypeVarint)+vlen(zz32(v))
+//@   ensures  hasKey(e.p, old(e.offset), tag, WireTypeVarint)
+//@   ensures  isVarintOf(e.p, old(e.offset)+keyLen(tag, WireTypeVarint), zz32(v))
+//@   modifies e.offset, e.p[e.offset : e.offset+keyLen(tag, WireTypeVarint)+vlen(zz32(v))]
+
+//@ func (e *Encoder) EncodeSInt64(tag int, v int64)
+//@   requires room(e, keyLen(tag, WireTypeVarint)+vlen(zz64(v)))
+//@   ensures  e.offset == old(e.offset)+keyLen(tag, WireTypeVarint)+vlen(zz64(v))
+//@   ensures  hasKey(e.p, old(e.offset), tag, WireTypeVarint)
+//@   ensures  isVarintOf(e.p, old(e.offset)+keyLen(tag, WireTypeVarint), zz64(v))
+//@   modifies e.offset, e.p[e.offset : e.offset+keyLen(tag, WireTypeVarint)+vlen(zz64(v))]
+
+//@ func (e *Encoder) EncodeFixed32(tag int, v uint32)
+//@   requires room(e, keyLen(tag, WireTypeFixed32)+4)
+//@   ensures  e.offset == old(e.offset)+keyLen(tag, WireTypeFixed32)+4
+//@   ensures  hasKey(e.p, old(e.offset), tag, WireTypeFixed32)
+//@   ensures  le32(e.p, old(e.offset)+keyLen(tag, WireTypeFixed32)) == v
+//@   modifies e.offset, e.p[e.offset : e.offset+keyLen(tag, WireTypeFixed32)+4]
+
+//@ func (e *Encoder) EncodeFixed64(tag int, v uint64)
+//@   requires room(e, keyLen(tag, WireTypeFixed64)+8)
+//@   ensures  e.offset == old(e.offset)+keyLen(tag, WireTypeFixed64)+8
+//@   ensures  hasKey(e.p, old(e.offset), tag, WireTypeFixed64)
+//@   ensures  le64(e.p, old(e.offset)+keyLen(tag, WireTypeFixed64)) == v
+//@   modifies e.offset, e.p[e.offset : e.offset+keyLen(tag, WireTypeFixed64)+8]
+
+//@ func (e *Encoder) EncodeFloat32(tag int, v float32)
+//@   requires room(e, keyLen(tag, WireTypeFixed32)+4)
+//@   ensures  e.offset == old(e.offset)+keyLen(tag, WireTypeFixed32)+4
+//@   ensures  hasKey(e.p, old(e.offset), tag, WireTypeFixed32)
+//@   ensures  le32(e.p, old(e.offset)+keyLen(tag, WireTypeFixed32)) == f32bits(v)
+//@   modifies e.offset, e.p[e.offset : e.offset+keyLen(tag, WireTypeFixed32)+4]
+
+//@ func (e *Encoder) EncodeFloat64(tag int, v float64)
+//@   requires room(e, keyLen(tag, WireTypeFixed64)+8)
+//@   ensures  e.offset == old(e.offset)+keyLen(tag, WireTypeFixed64)+8
+//@   ensures  hasKey(e.p, old(e.offset), tag, WireTypeFixed64)
+//@   ensures  le64(e.p, old(e.offset)+keyLen(tag, WireTypeFixed64)) == f64bits(v)
+//@   modifies e.offset, e.p[e.offset : e.offset+keyLen(tag, WireTypeFixed64)+8]
+
+//@ func (e *Encoder) EncodeBytes(tag int, v []byte)
+//@   requires room(e, keyLen(tag, WireTypeLengthDelimited)+vlen(uint64(len(v)))+len(v))
+//@   requires !gocv_sameArr(v, e.p)
+//@   ensures  e.offset == old(e.offset)+keyLen(tag, WireTypeLengthDelimited)+vlen(uint64(len(v)))+len(v)
+//@   ensures  hasKey(e.p, old(e.offset), tag, WireTypeLengthDelimited)
+//@   ensures  isVarintOf(e.p, old(e.offset)+keyLen(tag, WireTypeLengthDelimited), uint64(len(v)))
+//@   ensures  forall(i, 0, len(v), byteAt(e.p, old(e.offset)+keyLen(tag, WireTypeLengthDelimited)+vlen(uint64(len(v)))+i) == v[i])
+//@   modifies e.offset, e.p[e.offset : e.offset+keyLen(tag, WireTypeLengthDelimited)+vlen(uint64(len(v)))+len(v)]
+
+//@ func (e *Encoder) EncodeString(tag int, s string)
+//@   requires room(e, keyLen(tag, WireTypeLengthDelimited)+vlen(uint64(len(s)))+len(s))
+//@   requires !gocv_strAliases(s, e.p)
+//@   ensures  e.offset == old(e.offset)+keyLen(tag, WireTypeLengthDelimited)+vlen(uint64(len(s)))+len(s)
+//@   ensures  hasKey(e.p, old(e.offset), tag, WireTypeLengthDelimited)
+//@   ensures  isVarintOf(e.p, old(e.offset)+keyLen(tag, WireTypeLengthDelimited), uint64(len(s)))
+//@   ensures  forall(i, 0, len(s), byteAt(e.p, old(e.offset)+keyLen(tag, WireTypeLengthDelimited)+vlen(uint64(len(s)))+i) == s[i])
+//@   modifies e.offset, e.p[e.offset : e.offset+keyLen(tag, WireTypeLengthDelimited)+vlen(uint64(len(s)))+len(s)]
+
+//@ func (e *Encoder) EncodeRaw(d []byte)
+//@   requires room(e, len(d))
+//@   requires !gocv_sameArr(d, e.p)
+//@   ensures  e.offset == old(e.offset)+len(d)
+//@   ensures  forall(i, 0, len(d), byteAt(e.p, old(e.offset)+i) == d[i])
+//@   modifies e.offset, e.p[e.offset : e.offset+len(d)]
+
+//@ func (e *Encoder) EncodeMapEntryHeader(tag int, size int)
+//@   requires room(e, keyLen(tag, WireTypeLengthDelimited)+vlen(uint64(size)))
+//@   ensures  e.offset == old(e.offset)+keyLen(tag, WireTypeLengthDelimited)+vlen(uint64(size))
+//@   ensures  hasKey(e.p, old(e.offset), tag, WireTypeLengthDelimited)
+//@   ensures  isVarintOf(e.p, old(e.offset)+keyLen(tag, WireTypeLengthDelimited), uint64(size))
+//@   modifies e.offset, e.p[e.offset : e.offset+keyLen(tag, WireTypeLengthDelimited)+vlen(uint64(size))]
+
+// ---------------------------------------------------------------------------------------
+// decoder.go: free functions.  Reader contracts are sandwiches: must-accept (every
+// conforming encoding succeeds), may-accept (whatever succeeds is an item actually present,
+// consumed exactly), must-reject (input that ends inside the item).
+
+//@ func DecodeVarint(p []byte) (v uint64, n int, err error)
+//@   ensures implies(varintStrict(p, 0), err == nil)
+//@   ensures implies(err == nil, n != 0 && n == varintLen(p, 0) && v == varintVal(p, 0))
+//@   ensures implies(err != nil, n == 0)
+//@   ensures implies(varintTruncated(p, 0), err != nil)
+//@   ensures 0 <= n && n <= 10 && n <= len(p)
+//@   loop 1: unroll 10
+//@   loop 2: unroll 10
+
+//@ func DecodeZigZag32(p []byte) (v int32, n int, err error)
+//@   ensures implies(varintStrict(p, 0), err == nil)
+//@   ensures implies(err == nil, n != 0 && n == varintLen(p, 0) && v == unzz32(varintVal(p, 0)))
+//@   ensures implies(err != nil, n == 0)
+//@   ensures implies(varintTruncated(p, 0), err != nil)
+//@   ensures 0 <= n && n <= 10 && n <= len(p)
+
+//@ func DecodeZigZag64(p []byte) (v int64, n int, err error)
+//@   ensures implies(varintStrict(p, 0), err == nil)
+//@   ensures implies(err == nil, n != 0 && n == varintLen(p, 0) && v == unzz64(varintVal(p, 0)))
+//@   ensures implies(err != nil, n == 0)
+//@   ensures implies(varintTruncated(p, 0), err != nil)
+//@   ensures 0 <= n && n <= 10 && n <= len(p)
+
+//@ func DecodeFixed32(p []byte) (v uint32, n int, err error)
+//@   ensures implies(len(p) >= 4, err == nil && n == 4 && v == le32(p, 0))
+//@   ensures implies(len(p) < 4, err != nil && n == 0)
+
+//@ func DecodeFixed64(p []byte) (v uint64, n int, err error)
+//@   ensures implies(len(p) >= 8, err == nil && n == 8 && v == le64(p, 0))
+//@   ensures implies(len(p) < 8, err != nil && n == 0)
+
+// ---------------------------------------------------------------------------------------
+// decoder.go: Decoder.  Representation invariant decOK(d): 0 <= d.offset <= len(d.p);
+// established by NewDecoder, required and ensured by every method, so it holds after every
+// sequence of calls.
+
+//@ func NewDecoder(p []byte) (d *Decoder)
+//@   inline
+//@   ensures d != nil && gocv_fresh(d) && d.offset == 0 && d.mode == DecoderModeSafe && gocv_view(d.p, p, 0, len(p)) && decOK(d)
+
+//@ func (d *Decoder) Mode() (m DecoderMode)
+//@   inline
+//@   requires decOK(d)
+//@   ensures m == d.mode
+
+//@ func (d *Decoder) SetMode(m DecoderMode)
+//@   inline
+//@   requires decOK(d)
+//@   ensures d.mode == m
+//@   modifies d.mode
+
+//@ func (d *Decoder) Seek(offset int64, whence int) (pos int64, err error)
+//@   requires decOK(d)
+//@   ensures decOK(d)
+//@   ensures implies(err != nil, d.offset == old(d.offset))
+//@   ensures pos == int64(d.offset)
+//@   modifies d.offset
+
+//@ func (d *Decoder) Reset()
+//@   inline
+//@   requires decOK(d)
+//@   ensures d.offset == 0
+//@   modifies d.offset
+
+//@ func (d *Decoder) More() (more bool)
+//@   inline
+//@   requires decOK(d)
+//@   ensures more == (d.offset < len(d.p))
+
+//@ func (d *Decoder) Offset() (o int)
+//@   inline
+//@   requires decOK(d)
+//@   ensures o == d.offset
+
+//@ func (d *Decoder) DecodeTag() (tag int, wireType WireType, err error)
+//@   requires decOK(d)
+//@   ensures  decOK(d)
+//@   ensures  implies(varintStrict(d.p, old(d.offset)) && validNum(int(varintVal(d.p, old(d.offset))>>3)), err == nil)
+//@   ensures  implies(err == nil, varintOK(d.p, old(d.offset)) && d.offset == old(d.offset)+varintLen(d.p, old(d.offset)))
+//@   ensures  implies(err == nil, uint64(tag) == varintVal(d.p, old(d.offset))>>3 && uint64(wireType) == varintVal(d.p, old(d.offset))&7)
+//@   ensures  implies(varintTruncated(d.p, old(d.offset)), err != nil)
+//@   modifies d.offset
+
+//@ func (d *Decoder) DecodeBool() (b bool, err error)
+//@   requires decOK(d)
+//@   ensures  decOK(d)
+//@   ensures  implies(varintStrict(d.p, old(d.offset)), err == nil)
+//@   ensures  implies(err == nil, varintOK(d.p, old(d.offset)) && d.offset == old(d.offset)+varintLen(d.p, old(d.offset)))
+//@   ensures  implies(err == nil, b == (varintVal(d.p, old(d.offset)) != 0))
+//@   ensures  implies(varintTruncated(d.p, old(d.offset)), err != nil)
+//@   modifies d.offset
+
+//@ func (d *Decoder) DecodeUInt32() (v uint32, err error)
+//@   requires decOK(d)
+//@   ensures  decOK(d)
+//@   ensures  implies(varintStrict(d.p, old(d.offset)) && varintVal(d.p, old(d.offset)) <= 0xffffffff, err == nil)
+//@   ensures  implies(err == nil, varintOK(d.p, old(d.offset)) && d.offset == old(d.offset)+varintLen(d.p, old(d.offset)))
+//@   ensures  implies(err == nil, uint64(v) == varintVal(d.p, old(d.offset)))
+//@   ensures  implies(varintTruncated(d.p, old(d.offset)), err != nil)
+//@   modifies d.offset
+
+//@ func (d *Decoder) DecodeUInt64() (v uint64, err error)
+//@   requires decOK(d)
+//@   ensures  decOK(d)
+//@   ensures  implies(varintStrict(d.p, old(d.offset)), err == nil)
+//@   ensures  implies(err == nil, varintOK(d.p, old(d.offset)) && d.offset == old(d.offset)+varintLen(d.p, old(d.offset)))
+//@   ensures  implies(err == nil, v == varintVal(d.p, old(d.offset)))
+//@   ensures  implies(varintTruncated(d.p, old(d.offset)), err != nil)
+//@   modifies d.offset
+
+//@ func (d *Decoder) DecodeInt32() (v int32, err error)
+//@   requires decOK(d)
+//@   ensures  decOK(d)
+//@   ensures  implies(varintStrict(d.p, old(d.offset)) && fitsInt32(varintVal(d.p, old(d.offset))), err == nil)
+//@   ensures  implies(err == nil, varintOK(d.p, old(d.offset)) && d.offset == old(d.offset)+varintLen(d.p, old(d.offset)))
+//@   ensures  implies(err == nil, uint64(int64(v)) == varintVal(d.p, old(d.offset)))
+//@   ensures  implies(varintTruncated(d.p, old(d.offset)), err != nil)
+//@   modifies d.offset
+
+//@ func (d *Decoder) DecodeInt64() (v int64, err error)
+//@   requires decOK(d)
+//@   ensures  decOK(d)
+//@   ensures  implies(varintStrict(d.p, old(d.offset)), err == nil)
+//@   ensures  implies(err == nil, varintOK(d.p, old(d.offset)) && d.offset == old(d.offset)+varintLen(d.p, old(d.offset)))
+//@   ensures  implies(err == nil, uint64(v) == varintVal(d.p, old(d.offset)))
+//@   ensures  implies(varintTruncated(d.p, old(d.offset)), err != nil)
+//@   modifies d.offset
+
+//@ func (d *Decoder) DecodeSInt32() (v int32, err error)
+//@   requires decOK(d)
+//@   ensures  decOK(d)
+//@   ensures  implies(varintStrict(d.p, old(d.offset)), err == nil)
+//@   ensures  implies(err == nil, varintOK(d.p, old(d.offset)) && d.offset == old(d.offset)+varintLen(d.p, old(d.offset)))
+//@   ensures  implies(err == nil, v == unzz32(varintVal(d.p, old(d.offset))))
+//@   ensures  implies(varintTruncated(d.p, old(d.offset)), err != nil)
+//@   modifies d.offset
+
+//@ func (d *Decoder) DecodeSInt64() (v int64, err error)
+//@   requires decOK(d)
+//@   ensures  decOK(d)
+//@   ensures  implies(varintStrict(d.p, old(d.offset)), err == nil)
+//@   ensures  implies(err == nil, varintOK(d.p, old(d.offset)) && d.offset == old(d.offset)+varintLen(d.p, old(d.offset)))
+//@   ensures  implies(err == nil, v == unzz64(varintVal(d.p, old(d.offset))))
+//@   ensures  implies(varintTruncated(d.p, old(d.offset)), err != nil)
+//@   modifies d.offset
+
+//@ func (d *Decoder) DecodeFixed32() (v uint32, err error)
+//@   requires decOK(d)
+//@   ensures  decOK(d)
+//@   ensures  implies(len(d.p)-old(d.offset) >= 4, err == nil)
+//@   ensures  implies(err == nil, len(d.p)-old(d.offset) >= 4 && d.offset == old(d.offset)+4 && v == le32(d.p, old(d.offset)))
+//@   modifies d.offset
+
+//@ func (d *Decoder) DecodeFixed64() (v uint64, err error)
+//@   requires decOK(d)
+//@   ensures  decOK(d)
+//@   ensures  implies(len(d.p)-old(d.offset) >= 8, err == nil)
+//@   ensures  implies(err == nil, len(d.p)-old(d.offset) >= 8 && d.offset == old(d.offset)+8 && v == le64(d.p, old(d.offset)))
+//@   modifies d.offset
+
+//@ func (d *Decoder) DecodeFloat32() (v float32, err error)
+//@   requires decOK(d)
+//@   ensures  decOK(d)
+//@   ensures  implies(len(d.p)-old(d.offset) >= 4, err == nil)
+//@   ensures  implies(err == nil, len(d.p)-old(d.offset) >= 4 && d.offset == old(d.offset)+4 && f32bits(v) == le32(d.p, old(d.offset)))
+//@   modifies d.offset
+
+//@ func (d *Decoder) DecodeFloat64() (v float64, err error)
+//@   requires decOK(d)
+//@   ensures  decOK(d)
+//@   ensures  implies(len(d.p)-old(d.offset) >= 8, err == nil)
+//@   ensures  implies(err == nil, len(d.p)-old(d.offset) >= 8 && d.offset == old(d.offset)+8 && f64bits(v) == le64(d.p, old(d.offset)))
+//@   modifies d.offset
+
+//@ func (d *Decoder) DecodeBytes() (b []byte, err error)
+//@   requires decOK(d)
+//@   ensures  decOK(d)
+//@   ensures  implies(lenDelimStrict(d.p, old(d.offset)), err == nil)
+//@   ensures  implies(err == nil, lenDelimOK(d.p, old(d.offset)) && d.offset == lenDelimEnd(d.p, old(d.offset)))
+//@   ensures  implies(err == nil, gocv_view(b, d.p, lenDelimStart(d.p, old(d.offset)), lenDelimEnd(d.p, old(d.offset))))
+//@   ensures  implies(lenDelimTooLong(d.p, old(d.offset)) || varintTruncated(d.p, old(d.offset)), err != nil)
+//@   modifies d.offset
+
+//@ func (d *Decoder) DecodeString() (s string, err error)
+//@   requires decOK(d)
+//@   ensures  decOK(d)
+//@   ensures  implies(lenDelimStrict(d.p, old(d.offset)), err == nil)
+//@   ensures  implies(err == nil, lenDelimOK(d.p, old(d.offset)) && d.offset == lenDelimEnd(d.p, old(d.offset)))
+//@   ensures  implies(err == nil, len(s) == int(varintVal(d.p, old(d.offset))))
+//@   ensures  forall(i, 0, len(s), implies(err == nil, s[i] == byteAt(d.p, lenDelimStart(d.p, old(d.offset))+i)))
+//@   ensures  implies(err == nil && d.mode != DecoderModeFast && len(s) > 0, gocv_fresh(s))
+//@   ensures  implies(lenDelimTooLong(d.p, old(d.offset)) || varintTruncated(d.p, old(d.offset)), err != nil)
+//@   modifies d.offset
